@@ -91,8 +91,9 @@ impl Prop for C20 {
     fn enumerated_subspaces(&self, _tier: Tier) -> Vec<String> {
         vec![
             "register value 0..=255 at positions {0,1,17,100,127,128,254,255} on an all-zero and an all-5 background".into(),
+            "all 256 level states (every register the same value) and 18 two-level states".into(),
             "offsets 0..=40".into(),
-            "cardinalities {100,300,1000,5000,20000} x offsets {0,8,16,23}".into(),
+            "cardinalities {100,300,1000,5000,20000} x offsets {0,8,16,23}, plus 100,000 and 250,000 elements".into(),
             "offsets usize::MAX-39..=usize::MAX".into(),
             "all ordered pairs of rho values 1..=12 in one bucket (exact register model)".into(),
         ]
@@ -108,10 +109,19 @@ impl Prop for C20 {
                 }
             }
         }
-        v.push(Case::Registers { hex: hex(&[0u8; 256]) });
-        v.push(Case::Registers { hex: hex(&[255u8; 256]) });
-        v.push(Case::Registers { hex: hex(&[64u8; 256]) });
-        v.push(Case::Registers { hex: hex(&[63u8; 256]) });
+        // "level" states: every register holds the same value; and two-level states (first k registers one higher)
+        for val in 0..=255u8 {
+            v.push(Case::Registers { hex: hex(&[val; 256]) });
+        }
+        for val in [1u8, 2, 7, 62, 63, 254] {
+            for k in [1usize, 128, 255] {
+                let mut r = vec![val; 256];
+                for x in r.iter_mut().take(k) {
+                    *x = val + 1;
+                }
+                v.push(Case::Registers { hex: hex(&r) });
+            }
+        }
         for o in 0..=40u32 {
             v.push(Case::BadOffset { offset: o });
         }
@@ -124,6 +134,8 @@ impl Prop for C20 {
                 v.push(Case::Crafted { items: vec![(7, a), (7, b)], perm: vec![0, 1], offset: (a + b) % 24, split: 1 });
             }
         }
+        v.push(Case::Accuracy { n: 100_000, seed: 0xC20AA, offset: 3 });
+        v.push(Case::Accuracy { n: 250_000, seed: 0xC20AB, offset: 11 });
         for n in [100u32, 300, 1000, 5000, 20000] {
             for offset in [0u8, 8, 16, 23] {
                 v.push(Case::Accuracy { n, seed: 0xC20 + n as u64 * 31 + offset as u64, offset });
